@@ -382,8 +382,9 @@ func typeRoundTrip(c px.Context, t px.Type) core.Result {
 //
 //	leaf-type-params   Timespan, Timestamp, SemVer, SemVerRange, URI with parameters: the parameters print in the leaf's own
 //	                   text format (Go durations, Go time stamps, merged version ranges, URI hashes), which the creator does not read
-//	lazy-type          Init, Like, Runtime: resolved lazily; printing may raise, parameters are normalised away
+//	lazy-type          Init, Like: resolved lazily; printing may raise
 //	nominal-type       Object, TypeSet, aliases, TypeReference: print as a name (or compare by identity)
+//	runtime-pattern-without-name  a Runtime with a pattern and an empty name: printed as (runtime, pattern), refused by the creator
 //	callable-block     a Callable whose block position holds something that is not a Callable, or whose parameters hold
 //	                   Unit (dropped when printing) or start with a Tuple (read back as the whole parameter tuple)
 var exoticGroups = []struct {
@@ -391,9 +392,10 @@ var exoticGroups = []struct {
 	names []string
 }{
 	{"leaf-type-params", []string{"Timespan", "Timestamp", "SemVer", "SemVerRange", "URI"}},
-	{"lazy-type", []string{"Init", "Like", "Runtime"}},
+	{"lazy-type", []string{"Init", "Like"}},
 	{"nominal-type", []string{"Object", "TypeSet", "TypeAlias", "TypeReference"}},
 	{"callable-block", []string{"CallableBlock"}},
+	{"runtime-pattern-without-name", []string{"RuntimePatternWithoutName"}},
 }
 
 // typeClass refines a failure class by what in the type is known to be unrepresentable.
@@ -431,6 +433,16 @@ func typeClass(t px.Type, dflt string) string {
 					}
 				}
 			}
+		case *types.RuntimeType:
+			// a pattern without a name: printed as (runtime, pattern), which the creator refuses
+			func() {
+				defer func() { _ = recover() }()
+				if ps := x.Parameters(); len(ps) == 2 {
+					if _, ok := ps[1].(*types.RegexpType); ok {
+						found["RuntimePatternWithoutName"] = true
+					}
+				}
+			}()
 		case px.TypeSet:
 			found["TypeSet"] = true
 		case px.ObjectType:
@@ -441,7 +453,7 @@ func typeClass(t px.Type, dflt string) string {
 				defer func() { _ = recover() }()
 				n = len(x.Parameters())
 			}()
-			if n > 0 || x.Name() == "Init" || x.Name() == "Like" || x.Name() == "Runtime" {
+			if n > 0 || x.Name() == "Init" || x.Name() == "Like" {
 				found[x.Name()] = true
 			}
 		}
